@@ -1604,6 +1604,141 @@ def input_classes(ck):
                sessions_cases=n_ses, model_cases=n_cmp, collection_sizes=sizes)
 
 
+# ---------------------------------------------------------------- compute_mask post-processing pipeline
+HDR_MORPH = ("From Coq Require Import List ZArith QArith.\nFrom NV.Lib Require Import Harness.\n"
+             "From NV.C19 Require Import MaskModel MorphModel.\n")
+
+
+def _my_erode(x):
+    """face-neighbour erosion, outside = 0 (independent of scipy: padded shifts)"""
+    p = np.pad(x, 1, constant_values=False)
+    out = p.copy()
+    for ax in range(x.ndim):
+        out &= np.roll(p, 1, axis=ax) & np.roll(p, -1, axis=ax)
+    return out[tuple(slice(1, -1) for _ in range(x.ndim))]
+
+
+def _my_dilate(x):
+    p = np.pad(x, 1, constant_values=False)
+    out = p.copy()
+    for ax in range(x.ndim):
+        out |= np.roll(p, 1, axis=ax) | np.roll(p, -1, axis=ax)
+    return out[tuple(slice(1, -1) for _ in range(x.ndim))]
+
+
+def _my_opening(x, k):
+    x = np.asarray(x, bool)
+    for _ in range(k):
+        x = _my_erode(x)
+    for _ in range(k):
+        x = _my_dilate(x)
+    return x
+
+
+def _first_largest(mask):
+    comps = _components(mask)
+    out = np.zeros(mask.shape, bool)
+    if comps:
+        big = max(len(c) for c in comps)
+        for p in [c for c in comps if len(c) == big][0]:
+            out[p] = True
+    return out
+
+
+def _structured_object(rng, shape):
+    """Union of random boxes (thickness 1..5 per axis: cubes, plates, rods), some pairs joined by one-voxel-thick
+    axis-aligned paths: objects on which opening and component selection interact in every way."""
+    obj = np.zeros(shape, bool)
+    centres = []
+    for _ in range(int(rng.integers(2, 5))):
+        size = [int(rng.integers(2, 8)) for _ in shape]
+        if rng.random() < 0.45:
+            size = [int(rng.integers(4, 10)) for _ in shape]
+            size[int(rng.integers(0, len(shape)))] = int(rng.integers(1, 3))   # a plate (1-2 voxels thick)
+        size = [min(sz, n) for sz, n in zip(size, shape)]
+        lo = [int(rng.integers(0, n - sz + 1)) for sz, n in zip(size, shape)]
+        obj[tuple(slice(a, a + sz) for a, sz in zip(lo, size))] = True
+        centres.append([a + sz // 2 for a, sz in zip(lo, size)])
+    for _ in range(int(rng.integers(0, 3))):
+        i, j = rng.choice(len(centres), size=2, replace=False)
+        p = list(centres[i])
+        for ax in rng.permutation(len(shape)):
+            step = 1 if centres[j][ax] >= p[ax] else -1
+            while p[ax] != centres[j][ax]:
+                obj[tuple(p)] = True
+                p[ax] += step
+        obj[tuple(p)] = True
+    return obj
+
+
+def mask_pipeline(ck):
+    """compute_mask = threshold, then (cc) largest connected component of the thresholded volume, then (opening > 0)
+    binary opening as post-processing - checked as a composition, on objects where the steps do not commute."""
+    from scipy import ndimage
+    from nipy.labs import mask as nm
+    rng = ck.rng("mask-pipeline")
+    ncase = ck.n(60, 400)
+    terms, meta = [], []
+    n = {"commute": 0, "non-commuting": 0}
+    for ci in range(ncase):
+        shape = [(12, 9, 8), (14, 8, 7), (9, 9, 9), (12, 10, 6), (8, 7, 13)][ci % 5]
+        obj = _structured_object(rng, shape)
+        if not obj.any() or obj.all():
+            continue
+        vol = rng.integers(0, 64, size=shape) / 64.0 + 100.0 * obj
+        a, b = [(1.0, 0.0), (3.5, 40.0), (0.25, -8.0)][ci % 3]
+        vol = a * vol + b
+        thresholded = np.asarray(nm.compute_mask(vol, None, cc=False, opening=0))
+        big = _first_largest(thresholded)
+        lab, nb = ndimage.label(thresholded)
+        for k in ((1, 2) if ci % 3 else (1, 3)) + ((0,) if ci % 7 == 0 else ()):
+            want = _my_opening(big, k)
+            other_order = _first_largest(_my_opening(thresholded, k))
+            feat = "commute" if np.array_equal(want, other_order) else "non-commuting"
+            n[feat] += 1
+            ck.count(("mask-pipeline", ci, k), nontrivial=True, bucket="mask-pipeline:%s,opening=%d" % (feat, k))
+            rp = {"shape": list(shape), "opening": k, "object": obj.astype(int).ravel().tolist(), "scale": a, "offset": b,
+                  "mean_volume": vol.ravel().tolist(),
+                  "call": "compute_mask(np.array(mean_volume).reshape(shape), None, cc=True, opening=opening)  (defaults m=0.2, M=0.9)",
+                  "thresholded_voxels": int(thresholded.sum()), "components": [len(c) for c in _components(thresholded)]}
+            try:
+                got = np.asarray(nm.compute_mask(vol, None, cc=True, opening=k))
+                got_nocc = np.asarray(nm.compute_mask(vol, None, cc=False, opening=k))
+            except Exception as e:  # noqa
+                ck.fail("compute_mask/pipeline/raises/%s" % feat, "compute_mask(cc=True, opening=%d) raised %s: %s" % (k, type(e).__name__, e), rp)
+                continue
+            if not np.array_equal(got, want):
+                ck.fail("compute_mask/pipeline/cc-then-opening/%s" % feat,
+                        "compute_mask(cc=True, opening=%d) on a %s volume (thresholded components of sizes %s): %d voxels; the largest component "
+                        "of the thresholded volume opened %d times has %d voxels (largest component of the opened thresholded volume: %d)"
+                        % (k, shape, rp["components"], int(got.sum()), k, int(want.sum()), int(other_order.sum())), rp)
+            if np.any(got & ~big):
+                ck.fail("compute_mask/pipeline/result-outside-largest-component/%s" % feat,
+                        "compute_mask(cc=True, opening=%d) contains %d voxels outside the largest connected component of the thresholded volume"
+                        % (k, int((got & ~big).sum())), rp)
+            if not np.array_equal(got_nocc, _my_opening(thresholded, k)):
+                ck.fail("compute_mask/pipeline/opening-only", "compute_mask(cc=False, opening=%d) is not the binary opening (face neighbours, "
+                        "outside = 0) of the thresholded volume" % k, rp)
+            if len(terms) < ck.n(24, 120) and (feat == "non-commuting" or ci % 6 == 0):
+                terms.append("obools_eqb (postprocess %s %s true %s %s %s) (Some %s)" % (
+                    cnatl(shape), clist([cbool(bool(x)) for x in thresholded.ravel()]), cnatl(lab.ravel()), cnat(nb), cnat(k),
+                    clist([cbool(bool(x)) for x in got.ravel()])))
+                meta.append(("compute_mask/pipeline/model-vs-impl/%s" % feat, rp))
+        if ci == 2:
+            ck.sample({"call": "compute_mask(volume %s with a union-of-boxes object, cc=True, opening=k)" % (shape,),
+                       "thresholded_components": [len(c) for c in _components(thresholded)], "largest_then_opened_1": int(_my_opening(big, 1).sum())})
+    n_cmp = 0
+    if ck.build is not None and ck.build.ok:
+        res = ck.coq_bools(HDR_MORPH, terms, shard=6, name="morph")
+        n_cmp = len(res)
+        ck.cov["traces_validated_against_impl"] += n_cmp
+        for ok, (sig, rp) in zip(res, meta):
+            if not ok:
+                ck.fail(sig, "Coq model of the post-processing (largest_cc selection given ndimage.label's labels, then opening) and "
+                        "compute_mask(cc=True, opening=%d) disagree" % rp["opening"], rp)
+    ck.section("mask_pipeline", cases=sum(n.values()), non_commuting=n["non-commuting"], commuting=n["commute"], model_cases=n_cmp)
+
+
 def run(ck):
     ck.cov["rule"] = ("slice timing: every registered schedule name x n_slices 1..N x TR set (exhaustive over n in range; "
                       "non-trivial when n>1; distinct by (name,n,TR)).  time_slice_diffs: shapes of 2..5 dims with extents 1..4 "
@@ -1618,6 +1753,7 @@ def run(ck):
     slicetiming(ck)
     timediff(ck)
     masks(ck)
+    mask_pipeline(ck)
     generators(ck)
     pca_oracles(ck)
     pca_designs(ck)
